@@ -1,0 +1,5 @@
+//go:build !verif
+
+package kapacitor
+
+func verifHook(string, ...string) {}
